@@ -524,12 +524,22 @@ def idna_ascii(tier):
             for n in lens(tier, (0, 1, 4, 8), range(0, 13))]
 
 
+def nfc(tier):
+    """NFC kernels over symbolic tables (harness/nfc.c)"""
+    o = []
+    for mode, name, ns in ((0, "reorder", lens(tier, (3,), (1, 2, 3, 4, 5, 6))), (1, "compose", lens(tier, (), (1, 2, 3, 4))), (2, "quickcheck", lens(tier, (), (1, 2, 3)))):
+        for n in ns:
+            o.append(Obl(f"nfc_{name}_n{n}", "nfc.c", [U("vk_nfc_kernel" if mode < 2 else "vk_nfc_quick")], defs={"MODE": mode, "N": n}, unwind=n + 6,
+                         harness_unwind=520, no_heap=False, mem_gb=16, timeout=(400 if tier == Q else 2400), weight=5 + n, replay="generated", backend="kissat"))
+    return o
+
+
 def prop_C06(tier):
-    return idna_ascii(tier) + [x for x in puny(tier) if tier != Q or x.name in ("puny_verify_vs_decode_n0",)]
+    return idna_ascii(tier) + [x for x in puny(tier) if tier != Q or x.name in ("puny_verify_vs_decode_n0",)] + nfc(tier)
 
 
 def prop_C16(tier):
-    return idna_ascii(tier) + [x for x in puny(tier) if "roundtrip" in x.name and tier != Q]
+    return idna_ascii(tier) + [x for x in puny(tier) if "roundtrip" in x.name and tier != Q] + nfc(tier)
 
 
 def prop_C08(tier):
